@@ -10,6 +10,7 @@ from ...schema import (
     EnumType,
     GraphQLType,
     InputObjectType,
+    ListType,
     NonNullType,
     ScalarType,
     unwrap_type,
@@ -93,6 +94,20 @@ class ValuesOfCorrectTypeChecker(ValidationVisitor):
                 input_type.get_value(node.value)
             except UnknownEnumValue:
                 self._report_bad_value(input_type, node)
+
+    def enter_list_value(self, node):
+        # The type info visitor has already entered the list: the type expected
+        # where the literal sits is one level up.
+        expected = self.type_info.enclosing_input_type
+        if expected is None:
+            return
+
+        nullable = expected.type if isinstance(expected, NonNullType) else expected
+        if not isinstance(nullable, ListType):
+            # List literals are never valid for non list types (see
+            # value_from_ast).
+            self._report_bad_value(expected, node)
+            raise SkipNode()
 
     def enter_object_value(self, node):
         named_type = (
